@@ -566,6 +566,111 @@ func strSeqCase(which int, ts []triple) *wire.Case {
 	return c
 }
 
+// collCase: the collection-level id functions (rarely used entry points): WayNodes, Members,
+// Nodes, Ways, Relations, OSM.  A version of 0 is a value like any other, wherever it stands.
+func collCase(which int, ts []triple) *wire.Case {
+	c := &wire.Case{Class: fmt.Sprintf("coll%d", which)}
+	c.Int(13).Int(int64(which))
+	putTriples(c, ts)
+	var eids osm.ElementIDs
+	var fids osm.FeatureIDs
+	var plain []int64
+	switch which {
+	case 0:
+		wn := make(osm.WayNodes, len(ts))
+		for i, t := range ts {
+			wn[i] = osm.WayNode{ID: osm.NodeID(t.r), Version: t.v, ChangesetID: osm.ChangesetID(i), Lat: float64(i), Lon: 1}
+		}
+		eids, fids = wn.ElementIDs(), wn.FeatureIDs()
+		for _, id := range wn.NodeIDs() {
+			plain = append(plain, int64(id))
+		}
+	case 1:
+		ms := make(osm.Members, len(ts))
+		for i, t := range ts {
+			ms[i] = osm.Member{Type: kinds[t.k], Ref: t.r, Version: t.v, Role: "x"}
+		}
+		eids, fids = ms.ElementIDs(), ms.FeatureIDs()
+	case 2:
+		ns := make(osm.Nodes, len(ts))
+		for i, t := range ts {
+			ns[i] = &osm.Node{ID: osm.NodeID(t.r), Version: t.v}
+		}
+		eids, fids = ns.ElementIDs(), ns.FeatureIDs()
+		for _, id := range ns.IDs() {
+			plain = append(plain, int64(id))
+		}
+	case 3:
+		ws := make(osm.Ways, len(ts))
+		for i, t := range ts {
+			ws[i] = &osm.Way{ID: osm.WayID(t.r), Version: t.v}
+		}
+		eids, fids = ws.ElementIDs(), ws.FeatureIDs()
+		for _, id := range ws.IDs() {
+			plain = append(plain, int64(id))
+		}
+	case 4:
+		rs := make(osm.Relations, len(ts))
+		for i, t := range ts {
+			rs[i] = &osm.Relation{ID: osm.RelationID(t.r), Version: t.v}
+		}
+		eids, fids = rs.ElementIDs(), rs.FeatureIDs()
+		for _, id := range rs.IDs() {
+			plain = append(plain, int64(id))
+		}
+	default:
+		o := &osm.OSM{}
+		for _, t := range ts {
+			switch t.k {
+			case 1:
+				o.Nodes = append(o.Nodes, &osm.Node{ID: osm.NodeID(t.r), Version: t.v})
+			case 2:
+				o.Ways = append(o.Ways, &osm.Way{ID: osm.WayID(t.r), Version: t.v})
+			default:
+				o.Relations = append(o.Relations, &osm.Relation{ID: osm.RelationID(t.r), Version: t.v})
+			}
+		}
+		eids, fids = o.ElementIDs(), o.FeatureIDs()
+	}
+	var eo, fo []int64
+	for _, id := range eids {
+		eo = append(eo, int64(id))
+	}
+	for _, id := range fids {
+		fo = append(fo, int64(id))
+	}
+	c.Ints(eo).Ints(fo).Ints(plain)
+	// oracle: the i-th id decodes to kind, ref and version of the i-th item
+	ord := ts
+	if which == 5 {
+		ord = nil
+		for k := 1; k <= 3; k++ {
+			for _, t := range ts {
+				if t.k == k {
+					ord = append(ord, t)
+				}
+			}
+		}
+	}
+	if len(eo) != len(ord) || len(fo) != len(ord) {
+		c.OracleFail = "an id list has another length than the collection"
+	} else {
+		for i, t := range ord {
+			if eo[i] != specPack(t.k, t.r, t.v) {
+				c.OracleFail = fmt.Sprintf("ElementIDs()[%d] decodes to %s, the item is %s/%d:%d", i, osm.ElementID(eo[i]).String(), kinds[t.k], t.r, t.v)
+				break
+			}
+			if fo[i] != specPack(t.k, t.r, 0) {
+				c.OracleFail = fmt.Sprintf("FeatureIDs()[%d] is not the feature id of item %d", i, i)
+				break
+			}
+		}
+	}
+	c.Desc = map[string]interface{}{"collection": []string{"WayNodes", "Members", "Nodes", "Ways", "Relations", "OSM"}[which], "items": showTriples(ts),
+		"ElementIDs": eo, "FeatureIDs": fo, "plain_ids": plain}
+	return c
+}
+
 type triple struct {
 	k int
 	r int64
@@ -739,7 +844,7 @@ func main() {
 	a := wire.ParseArgs()
 	rng := wire.Rng(a.Seed)
 	w := wire.NewWriter("C10", a.Seed, a.Tier)
-	w.Rule = "ids: every kind x boundary refs (2^k-1,2^k,2^k+1, k<=40) x boundary versions plus random in-range; sorts: random lists over a boundary subset (all pairs occur); parse: String() of ids, grammar mutations and fixed malformed strings (oracle from the text alone: shape + denoted value); conversions NodeID/WayID/RelationID of feature and element ids of every element kind x boundary refs; WayNode / Member ids, Type.FeatureID on element, non-element and near-miss type strings; Counts and Elements/Objects id lists on random lists over boundary refs; out-of-range refs/versions (any int64) against the closed formulas; sorts of 4096..5002 (thorough ..20001) ids described by generator parameters and expanded on both sides (output compared through order/multiset/rolling hashes); String() on several ids in a row with the results kept and only then compared and parsed. distinct = distinct token streams; all cases non-trivial except the empty sort."
+	w.Rule = "ids: every kind x boundary refs (2^k-1,2^k,2^k+1, k<=40) x boundary versions plus random in-range; sorts: random lists over a boundary subset (all pairs occur); parse: String() of ids, grammar mutations and fixed malformed strings (oracle from the text alone: shape + denoted value); conversions NodeID/WayID/RelationID of feature and element ids of every element kind x boundary refs; WayNode / Member ids, Type.FeatureID on element, non-element and near-miss type strings; Counts and Elements/Objects id lists on random lists over boundary refs; out-of-range refs/versions (any int64) against the closed formulas; sorts of 4096..5002 (thorough ..20001) ids described by generator parameters and expanded on both sides (output compared through order/multiset/rolling hashes); String() on several ids in a row with the results kept and only then compared and parsed; the collection-level id functions (WayNodes, Members, Nodes, Ways, Relations, OSM) with version 0 at the first / a middle / the last position, everywhere and nowhere. distinct = distinct token streams; all cases non-trivial except the empty sort."
 	refs := boundaryRefs()
 	nrand, nsort, nparse := 300, 150, 1500
 	if a.Tier == "thorough" {
@@ -872,6 +977,50 @@ func main() {
 		}
 		w.Add(strSeqCase(which, ts))
 	}
+	// 1h. collection-level id functions; version 0 at the first / a middle / the last position,
+	// everywhere, nowhere; repeated refs with versions 0,1,2
+	collKind := func(which, j int) int {
+		switch which {
+		case 0, 2:
+			return 1
+		case 3:
+			return 2
+		case 4:
+			return 3
+		}
+		return 1 + j%3
+	}
+	for which := 0; which <= 5; which++ {
+		patterns := [][]int{{}, {0}, {5}, {0, 1, 2}, {0, 3, 4}, {3, 0, 4}, {3, 4, 0}, {0, 0, 0}, {3, 4, 5}, {0, 65535, 1, 0, 32768}, {1, 0, 0, 0, 0, 0, 0, 0, 0, 0, 0, 0, 7}}
+		for pi, vs := range patterns {
+			ts := make([]triple, len(vs))
+			for j, v := range vs {
+				r := int64(9)
+				if pi%2 == 1 {
+					r = refs[(pi*7+j*3)%len(refs)]
+				}
+				ts[j] = triple{collKind(which, j), r, v}
+			}
+			w.Add(collCase(which, ts))
+		}
+	}
+	ncoll := int(30 * a.Scale)
+	if a.Tier == "thorough" {
+		ncoll = int(600 * a.Scale)
+	}
+	for i := 0; i < ncoll; i++ {
+		which := i % 6
+		n := 1 + rng.Intn(9)
+		ts := make([]triple, n)
+		for j := range ts {
+			v := bversions[rng.Intn(len(bversions))]
+			if rng.Intn(3) == 0 {
+				v = 0
+			}
+			ts[j] = triple{collKind(which, rng.Intn(3)), refs[rng.Intn(len(refs))], v}
+		}
+		w.Add(collCase(which, ts))
+	}
 	// 1e. outside the domain: negative refs, refs >= 2^40, versions outside [0, 2^16)
 	oorRefs := []int64{-1, -2, -1 << 39, -1 << 40, -1<<40 - 1, 1 << 40, 1<<40 + 7, 1 << 41, 1 << 44, 1<<44 + 7, 1 << 45, 1 << 46, 1<<47 - 1, 1 << 47, 1 << 48, 1<<48 + 7,
 		1<<62 + 5, math.MaxInt64, math.MinInt64, math.MinInt64 + 1, -1 << 47, -1<<47 - 1, 3<<40 + 9, 0x7f << 40, 0x20<<40 + 1}
@@ -962,8 +1111,9 @@ func main() {
 		canary(memberCase("way", 77, 3), last)
 		canary(typeFeatureCase("changeset", 5), func(t []uint64) { t[len(t)-2] = 2 }) // error -> ok
 		canary(oorCase(1, -1, 70000), last)
-		canary(bigSortCase(0, 1, 4097, 0), func(t []uint64) { t[6] = 2 * 4096 })                // "out of order at index 4096"
-		canary(strSeqCase(1, []triple{{1, 1, 1}, {2, 22, 3}}), func(t []uint64) { t[9+9] = 0 }) // first kept string "changed"
+		canary(collCase(0, []triple{{1, 9, 0}, {1, 9, 1}, {1, 9, 2}}), func(t []uint64) { t[14], t[15] = t[13], t[13] }) // versions of later way nodes dropped
+		canary(bigSortCase(0, 1, 4097, 0), func(t []uint64) { t[6] = 2 * 4096 })                                         // "out of order at index 4096"
+		canary(strSeqCase(1, []triple{{1, 1, 1}, {2, 22, 3}}), func(t []uint64) { t[9+9] = 0 })                          // first kept string "changed"
 	}
 	if err := w.Flush(a.Out, "Verif.C10.Check", 1200); err != nil {
 		fmt.Fprintln(os.Stderr, err)
